@@ -37,6 +37,12 @@ def expect_witness(cid, fl):
         return "err"
     if cid in ("w-num5", "w-num6", "w-num7", "w-num8", "w-num9", "w-num10", "w-num11", "w-num12", "w-num13", "w-num14"):
         return "err"
+    if cid.startswith("w-numexp"):          # json.Number ending in a bare exponent sign
+        return "err"
+    if cid.startswith("w-raw-junk"):        # a complete value followed by one junk byte
+        if fl & B["NoValidateJSONMarshaler"] and not fl & B["CompactMarshaler"]:
+            return None
+        return "err"
     if cid in ("w-jv-2", "w-jv-5", "w-jv-6", "w-jvp-2", "w-jvp-5", "w-jvp-6", "w-raw-bad", "w-raw-dense0", "w-raw-dense1", "w-raw-dense2",
                "w-raw-dense3", "w-raw-dense4", "w-raw-dense5", "w-raw-dense7", "w-raw-dense8", "w-raw-dense9"):   # invalid Marshaler output
         if fl & B["NoValidateJSONMarshaler"] and not fl & B["CompactMarshaler"]:
